@@ -22,6 +22,8 @@ THEOREMS = [
     "Names.prefixesAreContainers_spec",
     # earlier pieces
     "Names.relative_level", "Names.expand_single_local", "Names.findObject_registered",
+    # hunter round: kernel-checked witnesses of the two open findings that live inside the Names model
+    "Names.second_name_in_definer_counterexample", "Names.same_name_submodule_counterexample",
 ]
 RULE = ("generated packages per the quantifier: definer module, one re-exporter (package __init__ or sibling module; plain, "
         "absolute, renamed or star import; __all__), consumers importing from the definer, the re-exporter or both and "
@@ -47,17 +49,39 @@ def gen_project(rng) -> Tuple[List[Unit], Dict[str, Any]]:
     objkind = rng.choice(["class", "class", "function"])
     exported = "X" if imp != "renamed" else "Y"
     b_all = rng.random() < 0.15           # definer lists it itself -> no move expected
+    # ---- hunter round (hunt/C07/1..4): layouts the property's quantifier admits and the generator did not produce
+    # (4) the defining module binds the object under a second name (`class _X` ... `X = _X`) and THAT name is exported
+    alias_def = rng.random() < 0.12
+    # (2) the object is called like the module that defines it (`from .X import X` in the package)
+    same_name = kind == "package" and imp != "renamed" and not alias_def and rng.random() < 0.15
+    # (1) the defining module imports something of its own package, ABOVE its definitions (fine for Python, which
+    # initialises a package before any of its sub-modules); interesting when a consumer OUTSIDE the package (nested
+    # layout) enters the defining module before the package
+    back_import = kind == "package" and rng.random() < 0.3
+    nested = rng.random() < 0.3
+    # (3) a reference to the object written INSIDE an object that is re-exported itself: a variable of the defining
+    # module annotated with the object and re-exported next to it; a consumer's variable re-exported by one more module
+    companion = (not b_all) and rng.random() < 0.25
+    pub = rng.random() < 0.2
+    P = "top.pkg" if nested else "pkg"
+    dmod = "X" if same_name else "_b"
+    D = P + "." + dmod                    # the defining module
+    cn = "_X" if alias_def else "X"       # the name the object is DEFINED under
     definer = []
     if objkind == "class":
-        definer += ["class X:", "    '''doc of X unique'''", "    def m(self):", "        '''m doc'''",
+        definer += ["class %s:" % cn, "    '''doc of X unique'''", "    def m(self):", "        '''m doc'''",
                     "    def m2(self): pass", "    class Inner:", "        def im(self): pass"]
         if rng.random() < 0.3:
             definer += ["    def m(self): return 2"]       # superseded member
     else:
-        definer += ["def X(a, b=1):", "    '''doc of X unique'''"]
+        definer += ["def %s(a, b=1):" % cn, "    '''doc of X unique'''"]
+    if alias_def:
+        definer += ["X = _X"]
     definer += ["class Other:", "    pass"]
+    if companion:
+        definer += ["inst: X = None", "'''inst doc, see L{X}'''"]
     # the optional-accelerator idiom: the defining module binds the same name a second time by an import
-    speedups = rng.random() < 0.2
+    speedups = rng.random() < 0.2 and not alias_def
     if speedups:
         if rng.random() < 0.5:
             definer += ["try:", "    from _speedups import X", "except ImportError:", "    pass"]
@@ -67,40 +91,58 @@ def gen_project(rng) -> Tuple[List[Unit], Dict[str, Any]]:
     # (analysed first, the definer is still in progress when the re-exporter takes the object)
     cyclic = kind == "sibling" and rng.random() < 0.3
     if cyclic:
-        definer += [rng.choice(["from pkg.api import API_CONST", "from .api import API_CONST as _c", "from . import api as _api", "import pkg.api\nfrom pkg.api import *"])]
+        # (the star form is not combined with a second name bound by assignment: the star import, which reads the
+        # __all__ of the re-exporter while that is still in progress, then rebinds the exported name — notes/C07.md)
+        definer += [rng.choice(["from %s.api import API_CONST" % P, "from .api import API_CONST as _c", "from . import api as _api",
+                                "import %s.api\nfrom %s.api import *" % (P, P)][:3 if alias_def else 4])]
+    if back_import:
+        definer = [rng.choice(["from %s import helper" % P, "from . import helper"])] + definer
     if b_all:
         definer += ["__all__ = ['X']"]
     if imp == "rel":
-        line = "from ._b import X" if kind == "package" else "from ._b import X"
+        line = "from .%s import X" % dmod
     elif imp == "abs":
-        line = "from pkg._b import X"
+        line = "from %s import X" % D
     elif imp == "renamed":
-        line = "from pkg._b import X as Y"
+        line = "from %s import X as Y" % D
     else:
-        line = "from pkg._b import *"
+        line = "from %s import *" % D
     reexp_src = [line, "__all__ = [%r]" % exported]
+    if companion:
+        if imp != "star":
+            reexp_src.insert(1, rng.choice(["from .%s import inst" % dmod, "from %s import inst" % D]))
+        reexp_src[-1] = "__all__ = [%r, 'inst']" % exported
     if cyclic:
         reexp_src.append("API_CONST = 1")
+    if back_import:
+        reexp_src.insert(0, "helper = 1")
     twice = rng.random() < 0.25
     if twice:
         # the same exported name imported a second time (repeated import, or star followed by a plain import)
-        second = {"rel": "from ._b import X", "abs": "from pkg._b import X", "renamed": "from pkg._b import X as Y",
-                  "star": rng.choice(["from pkg._b import X", "from pkg._b import *"])}[imp]
-        reexp_src.insert(1, second)
-    reexp_q = "pkg" if kind == "package" else "pkg.api"
+        second = {"rel": "from .%s import X" % dmod, "abs": "from %s import X" % D, "renamed": "from %s import X as Y" % D,
+                  "star": rng.choice(["from %s import X" % D, "from %s import *" % D])}[imp]
+        reexp_src.insert(2 if back_import else 1, second)
+    reexp_q = P if kind == "package" else P + ".api"
     units = []
     pkg_src = reexp_src if kind == "package" else ["'''pkg'''"]
-    units.append(Unit("pkg", True, "\n".join(pkg_src) + "\n", None))
-    sibs = [Unit("pkg._b", False, "\n".join(definer) + "\n", "pkg")]
+    if nested:
+        units.append(Unit("top", True, "'''top'''\n", None))
+    units.append(Unit(P, True, "\n".join(pkg_src) + "\n", "top" if nested else None))
+    sibs = [Unit(D, False, "\n".join(definer) + "\n", P)]
     if kind == "sibling":
-        sibs.append(Unit("pkg.api", False, "\n".join(reexp_src) + "\n", "pkg"))
+        sibs.append(Unit(P + ".api", False, "\n".join(reexp_src) + "\n", P))
     consumers = []
-    for cname in rng.sample(["d", "e", "zz"], rng.randint(1, 2)):
+    places = [(c, P) for c in rng.sample(["d", "e", "zz"], rng.randint(1, 2))]
+    if nested:
+        # a consumer next to the package (outside it): it may be analysed BEFORE the package
+        places.append((rng.choice(["a", "zq"]), "top"))
+    outer = []
+    for cname, where in places:
         form = rng.choice(["definer", "reexporter", "both"])
         lines = []
         local = []
         if form in ("definer", "both"):
-            lines.append("from pkg._b import X as XD")
+            lines.append("from %s import X as XD" % D)
             local.append("XD")
         if form in ("reexporter", "both"):
             lines.append("from %s import %s as XR" % (reexp_q, exported))
@@ -111,28 +153,48 @@ def gen_project(rng) -> Tuple[List[Unit], Dict[str, Any]]:
             lines.append("import %s as t_%s" % (reexp_q, cname))
         use = local[0]
         if objkind == "class":
-            lines += ["class K_%s(%s):" % (cname, use), "    '''see L{%s} and L{pkg._b.X} and L{%s.%s}'''" % (use, reexp_q, exported)]
-        lines += ["v_%s: %s = None" % (cname, local[-1]), "'''var'''"]
-        sibs.append(Unit("pkg." + cname, False, "\n".join(lines) + "\n", "pkg"))
-        consumers.append({"module": "pkg." + cname, "form": form, "locals": local, "use": use, "cname": cname,
-                          "alias": ("t_%s.%s" % (cname, exported)) if via_alias else None})
+            lines += ["class K_%s(%s):" % (cname, use), "    '''see L{%s} and L{%s.X} and L{%s.%s}'''" % (use, D, reexp_q, exported)]
+        lines += ["v_%s: %s = None" % (cname, local[-1]), "'''var, see L{%s}'''" % local[-1]]
+        (outer if where == "top" else sibs).append(Unit(where + "." + cname, False, "\n".join(lines) + "\n", where))
+        consumers.append({"module": where + "." + cname, "form": form, "locals": local, "use": use, "cname": cname,
+                          "alias": ("t_%s.%s" % (cname, exported)) if via_alias else None, "var_at": where + "." + cname})
+    if pub:
+        # one more module publishes a consumer's variable: the annotation (and the docstring) of that variable are
+        # references to the object that now sit inside a moved object
+        c = rng.choice(consumers)
+        sibs.append(Unit(P + ".pub", False, "from %s import v_%s\n__all__ = ['v_%s']\n" % (c["module"], c["cname"], c["cname"]), P))
+        c["var_at"] = P + ".pub"
     extra_root = None
     if rng.random() < 0.25:
         # a second root whose name is a textual prefix of the package's name (or which the package's name prefixes),
         # given BEFORE the package: looking a moved object up by its old name must pick the right root
-        extra_root = rng.choice(["pk", "p", "pkg_ext"])
+        extra_root = rng.choice(["pk", "p", "pkg_ext"]) if not nested else rng.choice(["to", "t", "top_ext"])
         units.insert(0, Unit(extra_root, False, "'''another root'''\nclass Unrelated:\n    pass\n", None))
     meta = {"kind": kind, "import": imp, "objkind": objkind, "exported": exported, "reexporter": reexp_q, "extra_root": extra_root,
-            "definer_all": b_all, "definer_imports_reexporter": cyclic, "consumers": consumers, "imported_twice": twice, "definer_also_imports": speedups}
-    return units + sibs, meta
+            "definer_all": b_all, "definer_imports_reexporter": cyclic, "consumers": consumers, "imported_twice": twice, "definer_also_imports": speedups,
+            "definer": D, "defined_as": cn, "package": P, "nested": nested, "definer_imports_package_first": back_import,
+            "alias_in_definer": alias_def, "named_like_module": same_name, "companion": companion, "published_var": pub}
+    return units + sibs + outer, meta
 
 
 def orders(units: List[Unit], rng, limit: int) -> List[List[int]]:
-    """reachable processing orders: the package first, its modules in any order"""
-    n = len(units)
-    # the roots given before the package, and the package itself, keep their places; the package's modules permute
-    k = next(i for i, u in enumerate(units) if u.qname == "pkg") + 1
-    perms = [list(range(k)) + [i + k for i in p] for p in itertools.permutations(range(n - k))]
+    """reachable processing orders: the roots in the order given, every package before its own modules and its whole
+    subtree in one piece (that is how the builder adds them), the modules of a package in any order"""
+    idx = {u.qname: i for i, u in enumerate(units)}
+    children: Dict[Optional[int], List[int]] = {}
+    for i, u in enumerate(units):
+        children.setdefault(idx.get(u.parent) if u.parent else None, []).append(i)
+
+    def sub(i) -> List[List[int]]:
+        kids = children.get(i, [])
+        if not kids:
+            return [[i]]
+        out = []
+        for perm in itertools.permutations(kids):
+            for combo in itertools.product(*[sub(k) for k in perm]):
+                out.append([i] + [x for part in combo for x in part])
+        return out
+    perms = [[x for part in combo for x in part] for combo in itertools.product(*[sub(r) for r in children[None]])]
     if len(perms) > limit:
         perms = [perms[0]] + rng.sample(perms[1:], limit - 1)
     return perms
@@ -146,8 +208,14 @@ class Clock:
         clk = self
         self.t = 0
         self.moves: Dict[int, int] = {}
+        self.entered: List[str] = []
         self._ao = model.System.addObject
         self._rp = model.Documentable.reparent
+        self._pm = model.System.processModule
+
+        def processModule(system, mod):
+            clk.entered.append(mod.fullName())
+            return clk._pm(system, mod)
 
         def addObject(system, obj):
             clk.t += 1
@@ -161,12 +229,35 @@ class Clock:
             return clk._rp(obj, new_parent, new_name)
         model.System.addObject = addObject
         model.Documentable.reparent = reparent
+        model.System.processModule = processModule
         return self
 
     def __exit__(self, *a):
         from pydoctor import model
         model.System.addObject = self._ao
         model.Documentable.reparent = self._rp
+        model.System.processModule = self._pm
+
+
+# the hunter-round shapes whose violations are ONE defect each: when every failure of a project/order lies inside the
+# set that defect explains, they are reported under the defect's own signature; anything else is reported as it is
+_DEFINER_REFS = {"consumer-import-from-definer:unresolved", "base-via-definer:before-move:unresolved", "base-via-definer:after-move:unresolved",
+                 "xref-via-definer-import:unresolved", "xref-via-qualified-name:unresolved", "annotation-via-definer-import:unlinked",
+                 "find_object-old-name"}
+SHAPES = [
+    # (meta key, signature, the failures the defect explains)
+    # (the displaced module is not found by a later `from .X import inst` of the package either)
+    ("named_like_module", "object-named-like-its-module:references-via-definer-unresolved", _DEFINER_REFS | {"companion-variable:not-at-exported-name"}),
+    ("alias_in_definer", "second-name-in-definer:references-via-definer-unresolved", _DEFINER_REFS),
+]
+
+
+class _Collect:
+    def __init__(self):
+        self.items: List[Tuple[str, Any, str]] = []
+
+    def fail(self, sig, payload, what):
+        self.items.append((sig, payload, what))
 
 
 def check_one(ctx: Ctx, units: List[Unit], meta, order: List[int], reqs, impls, pay) -> None:
@@ -178,16 +269,70 @@ def check_one(ctx: Ctx, units: List[Unit], meta, order: List[int], reqs, impls, 
     except Exception as e:
         ctx.fail("analysis-crash:" + type(e).__name__, payload, f"{type(e).__name__}: {e}")
         return
+    col = _Collect()
+    oracle(col, system, clk, meta, order, payload)
+    items = col.items
+    for key, shape_sig, explained in SHAPES:
+        mine = [it for it in items if it[0] in explained]
+        if meta.get(key) and mine:
+            # the consequences of the one known defect of this layout go under its signature; whatever else fails in
+            # the same project is reported as it is
+            ctx.fail(shape_sig, payload, "; ".join(w for _s, _p, w in mine)[:1500])
+            items = [it for it in items if it[0] not in explained]
+            break
+    for s, p, w in items:
+        ctx.fail(s, p, w)
+    correspondence(ctx, system, meta, payload, reqs, impls, pay)
+
+
+def _annotation_html(attr) -> str:
+    from pydoctor import epydoc2stan
+    from pydoctor.stanutils import flatten
+    try:
+        with contextlib.redirect_stdout(io.StringIO()):
+            stan = epydoc2stan.type2stan(attr)
+        return flatten(stan) if stan is not None else ""
+    except Exception as e:
+        return "ERR:" + type(e).__name__
+
+
+def _links_to(html: str, obj) -> bool:
+    """does the rendered annotation link to the page (or, from that very page, to the anchor) of `obj`?"""
+    if ('href="%s"' % obj.url) in html:
+        return True
+    return ('title="%s"' % obj.fullName()) in html and ('href="#%s"' % obj.url.partition("#")[2]) in html and "#" in obj.url
+
+
+def _xref(o, ident):
+    try:
+        with contextlib.redirect_stdout(io.StringIO()):
+            return o.docstring_linker._resolve_identifier_xref(ident, 0)
+    except LookupError:
+        return None
+
+
+def oracle(ctx, system, clk, meta, order, payload) -> None:
     moved_expected = not meta["definer_all"]
+    D = meta["definer"]
     new_name = meta["reexporter"] + "." + meta["exported"]
-    old_name = "pkg._b.X"
-    target_name = new_name if moved_expected else old_name
+    old_name = D + ".X"                              # the name consumers of the defining module use
+    real_old = D + "." + meta["defined_as"]          # the name it was registered under when defined
+    target_name = new_name if moved_expected else real_old
     obj = system.allobjects.get(target_name)
     docs = [o for o in system.allobjects.values() if o.docstring == "doc of X unique"]
     sigbase = "%s-reexport" % meta["import"] if meta["import"] in ("star", "renamed") else "reexport"
     # (1) documented exactly once, where exported
     if obj is None or obj.docstring != "doc of X unique":
-        ctx.fail(sigbase + ":not-at-exported-name", payload, f"{target_name} is not the re-exported object (order {order})")
+        why = ""
+        if moved_expected and D in clk.entered and meta["package"] in clk.entered \
+                and clk.entered.index(D) < clk.entered.index(meta["package"]) and meta["definer_imports_package_first"] \
+                and meta["kind"] == "package":
+            # the defining module was ENTERED before the package it belongs to (Python never does that), and it imports
+            # its package: the package's re-export ran while the definer had not reached the definition
+            why = ":definer-entered-before-its-package"
+        ctx.fail("reexport-dropped" + why if why else sigbase + ":not-at-exported-name", payload,
+                 f"{target_name} is not the re-exported object (order {order}; modules entered in the order {clk.entered}; "
+                 f"documented as {[d.fullName() for d in docs]})")
         return
     if len(docs) != 1:
         ctx.fail(sigbase + ":documented-%d-times" % len(docs), payload, f"{[d.fullName() for d in docs]}")
@@ -202,7 +347,7 @@ def check_one(ctx: Ctx, units: List[Unit], meta, order: List[int], reqs, impls, 
         if o not in system.rootobjects:
             ctx.fail(sigbase + ":unrooted", payload, f"{obj.fullName()} does not hang off a root")
     if moved_expected:
-        stale = [k for k in system.allobjects if k == old_name or k.startswith(old_name + ".")]
+        stale = [k for k in system.allobjects if any(k == n or k.startswith(n + ".") for n in {old_name, real_old})]
         if stale:
             ctx.fail(sigbase + ":still-under-definer", payload, f"{stale} still registered")
     if meta["objkind"] == "class":
@@ -240,34 +385,51 @@ def check_one(ctx: Ctx, units: List[Unit], meta, order: List[int], reqs, impls, 
                 ctx.fail(f"base-via-{how}:unresolved", payload,
                          f"{c['module']}.K bases {None if k is None else k.baseobjects!r} (order {order})")
             if k is not None:
-                lk = k.docstring_linker
                 for ident in (c["use"], old_name, new_name):
-                    try:
-                        with contextlib.redirect_stdout(io.StringIO()):
-                            t = lk._resolve_identifier_xref(ident, 0)
-                    except LookupError:
-                        t = None
+                    t = _xref(k, ident)
                     if t is not obj:
                         via = "definer-import" if ident == "XD" else ("reexporter-import" if ident == "XR" else "qualified-name")
                         ctx.fail("xref-via-%s:unresolved" % via, payload, f"docstring reference {ident!r} in {k!r} -> {t!r}")
-    # an annotation that names the object through either import links to its one page
+    # an annotation that names the object through either import links to its one page; so does the docstring of the
+    # annotated variable.  The variable may have been re-exported itself (by one more module): the references inside it
+    # are still references to the object
+    inside: List[str] = []
     for c in (meta["consumers"] if moved_expected else []):
-        attr = system.allobjects.get(c["module"] + ".v_" + c["cname"])
+        var_moved = c.get("var_at", c["module"]) != c["module"]
+        attr = system.allobjects.get(c.get("var_at", c["module"]) + ".v_" + c["cname"])
         if attr is None:
+            if var_moved:
+                ctx.fail("published-variable:not-at-exported-name", payload, f"{c['var_at']}.v_{c['cname']} is not registered (order {order})")
             continue
-        from pydoctor import epydoc2stan
-        from pydoctor.stanutils import flatten
-        try:
-            with contextlib.redirect_stdout(io.StringIO()):
-                stan = epydoc2stan.type2stan(attr)
-            html = flatten(stan) if stan is not None else ""
-        except Exception as e:
-            html = "ERR:" + type(e).__name__
+        html = _annotation_html(attr)
         ln = c["locals"][-1]
         want = obj.url
-        if ('href="%s"' % want) not in html:
-            via = "definer-import" if ln == "XD" else "reexporter-import"
-            ctx.fail("annotation-via-%s:unlinked" % via, payload, f"annotation {ln!r} of {attr.fullName()} renders as {html[:200]!r}, expected a link to {want}")
+        via = "definer-import" if ln == "XD" else "reexporter-import"
+        if not _links_to(html, obj):
+            if var_moved:
+                inside.append(f"annotation {ln!r} of {attr.fullName()} (written in {c['module']}) renders as {html[:120]!r}, expected a link to {want}")
+            else:
+                ctx.fail("annotation-via-%s:unlinked" % via, payload, f"annotation {ln!r} of {attr.fullName()} renders as {html[:200]!r}, expected a link to {want}")
+        t = _xref(attr, ln)
+        if t is not obj:
+            if var_moved:
+                inside.append(f"docstring reference L{{{ln}}} of {attr.fullName()} (written in {c['module']}) -> {t!r}")
+            else:
+                ctx.fail("xref-via-%s:unresolved" % via, payload, f"docstring reference {ln!r} in {attr!r} -> {t!r}")
+    if moved_expected and meta.get("companion"):
+        # a variable of the DEFINING module, annotated with the object, re-exported next to it
+        attr = system.allobjects.get(meta["reexporter"] + ".inst")
+        if attr is None:
+            ctx.fail("companion-variable:not-at-exported-name", payload, f"{meta['reexporter']}.inst is not registered (order {order})")
+        else:
+            html = _annotation_html(attr)
+            if not _links_to(html, obj):
+                inside.append(f"annotation 'X' of {attr.fullName()} (written in {D}) renders as {html[:120]!r}, expected a link to {obj.url}")
+            t = _xref(attr, "X")
+            if t is not obj:
+                inside.append(f"docstring reference L{{X}} of {attr.fullName()} (written in {D}) -> {t!r}")
+    if inside:
+        ctx.fail("reference-inside-moved-object:resolved-in-reexporter-scope", payload, "; ".join(inside)[:1500] + f" (order {order})")
     if moved_expected:
         try:
             fo = system.find_object(old_name)
@@ -275,7 +437,13 @@ def check_one(ctx: Ctx, units: List[Unit], meta, order: List[int], reqs, impls, 
             fo = None
         if fo is not obj:
             ctx.fail("find_object-old-name", payload, f"find_object({old_name!r}) = {fo!r}")
-    # correspondence with the Names model
+
+
+def correspondence(ctx: Ctx, system, meta, payload, reqs, impls, pay) -> None:
+    """the final registry / alias state against the Names model"""
+    D = meta["definer"]
+    new_name = meta["reexporter"] + "." + meta["exported"]
+    old_name = D + ".X"
     toks, ids, objs = nd.state_tokens(system)
     if nd.has_dotted_names(objs):
         ctx.count("model-skipped:dotted-name")
@@ -283,7 +451,7 @@ def check_one(ctx: Ctx, units: List[Unit], meta, order: List[int], reqs, impls, 
     queries, answers = [], []
     for c in meta["consumers"]:
         mod = system.allobjects[c["module"]]
-        for ln in c["locals"] + ["pkg._b.X", new_name, "pkg._b.Other", "nosuch.name", ln_or("XD", c)] + ([c["alias"]] if c.get("alias") else []):
+        for ln in c["locals"] + [old_name, new_name, D + "." + meta["defined_as"], D + ".Other", "nosuch.name", ln_or("XD", c)] + ([c["alias"]] if c.get("alias") else []):
             queries.append("E|%d|%s" % (ids[id(mod)], enc(ln)))
             answers.append(nd.real_expand(mod, ln))
             queries.append("R|%d|%s" % (ids[id(mod)], enc(ln)))
@@ -293,7 +461,7 @@ def check_one(ctx: Ctx, units: List[Unit], meta, order: List[int], reqs, impls, 
             for ln in ("m", "XD.m", "XR.Inner.im", "K_%s.m2" % c["cname"], "Inner"):
                 queries.append("E|%d|%s" % (ids[id(k)], enc(ln)))
                 answers.append(nd.real_expand(k, ln))
-    for full in (old_name, new_name, old_name + ".m", "pkg._b.nosuch", "other.root", "pkg", "pkg._b.X.Inner.im"):
+    for full in (old_name, new_name, old_name + ".m", D + "." + meta["defined_as"], D + ".nosuch", "other.root", meta["package"], D, old_name + ".Inner.im"):
         queries.append("F|" + enc(full))
         answers.append(nd.real_find(system, full, ids))
     reqs.append("names q " + " ".join(toks) + " ? " + " ".join(queries))
